@@ -66,7 +66,7 @@ class _Proj:
 _HREF = re.compile(r'href="([^"]*)"')
 
 
-def impl_doc_link(base, ctx_url, target_url, current=None, markdown_link=None):
+def impl_doc_link(base, ctx_url, target_url, current=None, markdown_link=None, via_parent=False):
     """href that the real MetaMarkdown produces for [[thing]] (or for [t](markdown_link)) in a docstring
     of an entity whose get_url() is ctx_url (or on a page converted with path=current)"""
     from ford._markdown import MetaMarkdown
@@ -77,7 +77,12 @@ def impl_doc_link(base, ctx_url, target_url, current=None, markdown_link=None):
             if current is not None:
                 html = md.reset().convert(src, path=pathlib.Path(current))
             else:
-                html = md.reset().convert(src, context=_Item(ctx_url))
+                ctx = _Item(ctx_url)
+                if via_parent:          # an entity without URL of its own, shown on its parent's page
+                    ctx = _Item(None)
+                    ctx.parent = _Item(None)
+                    ctx.parent.parent = _Item(ctx_url)
+                html = md.reset().convert(src, context=ctx)
         m = _HREF.search(html)
         return m.group(1) if m else "NOHREF"
     except Exception as e:  # noqa
